@@ -137,6 +137,8 @@ def instances(tier):
             forms += ["t1x2", "ct2x2x2"] if tier == "thorough" or kind in ("Converter", "LinReg", "VLoss") else ["t1x2"]
         for form in forms:
             cov = ["accepted"] + (["rejected"] if kind in ("RLoad", "Converter", "LinReg") or (form != "const" and TABLE_KEY.get(kind) == "ig") else [])
-            out.append(Instance("C11", "c11:u_ctor", dict(kind=kind, form=form), cover=cov, weight=5 if "t2" in form else 1))
+            # (exact 2-D forms: ~60 s of nonlinear solving on an idle machine, observed > 800 s next to a 16-core sweep - hence the larger budget)
+            out.append(Instance("C11", "c11:u_ctor", dict(kind=kind, form=form), cover=cov, weight=50 if "t2" in form else 1,
+                                **({"time_limit": 3000} if "t2" in form else {})))
     out.append(Instance("C11", "c11:u_ctor", dict(kind="PMux", form="const", rs_list=True), cover=["accepted"]))
     return out, META
